@@ -173,14 +173,16 @@ fn cfg_text(c: &RCase) -> String {
         3 => s.push_str(" sequence-timeout 40 sequence-input-mode hidden-delay-type"),
         _ => {}
     }
-    s.push_str(")\n(defsrc a b c d lctl lalt)\n");
+    s.push_str(")\n(defsrc a b c d lctl lalt ralt)\n");
     let d = if seq_mode(c) != 0 {
         "sldr".to_string()
     } else {
-        match c.d_action % 4 {
+        match c.d_action % 6 {
             0 => "(unmod 9)".to_string(),
             1 => "(unshift 9)".to_string(),
             2 => "(unmod (lsft) 9)".to_string(),
+            4 => "(unmod (ralt) 9)".to_string(),
+            5 => "(unmod (lalt ralt) 9)".to_string(),
             _ => "9".to_string(),
         }
     };
@@ -192,14 +194,23 @@ fn cfg_text(c: &RCase) -> String {
             b = "(chord cg0 y)".to_string();
         }
         if l == 0 {
-            s.push_str(&format!("(deflayer l0 {a} {b} (layer-while-held l1) {d} lctl lalt)\n"));
+            s.push_str(&format!("(deflayer l0 {a} {b} (layer-while-held l1) {d} lctl lalt ralt)\n"));
         } else {
-            s.push_str(&format!("(deflayer l{l} {a} {b} _ _ _ _)\n"));
+            s.push_str(&format!("(deflayer l{l} {a} {b} _ _ _ _ _)\n"));
         }
     }
     if c.overrides {
         // an override on the first pool key of cell (l0, a)
-        s.push_str(&format!("(defoverrides (lsft {}) (0) (lctl {}) (lalt min))\n", cell_pool(0, 0)[0], cell_pool(0, 1)[0]));
+        // ... and a chain: the override of the first pool key outputs the second pool key of
+        // the same cell, which has an override of its own
+        s.push_str(&format!(
+            "(defoverrides (lsft {}) (0) (lctl {}) (lalt min) (lalt {}) ({}) (lctl {}) (kp5))\n",
+            cell_pool(0, 0)[0],
+            cell_pool(0, 1)[0],
+            cell_pool(0, 0)[0],
+            cell_pool(0, 0)[1],
+            cell_pool(0, 0)[1]
+        ));
     }
     if c.extras & 1 != 0 {
         s.push_str("(defchordsv2 (a b) kp1 30 all-released ())\n");
@@ -333,6 +344,7 @@ fn judge_case(c: &RCase) -> Verdict {
     owned[1].insert(phys[1]);
     if c.overrides {
         owned[0].insert(code_of("0"));
+        owned[0].insert(code_of("kp5"));
         owned[1].insert(code_of("min"));
     }
     // chord outputs belong to both keys
@@ -455,6 +467,27 @@ fn judge_case(c: &RCase) -> Verdict {
                         }
                     }
                 }
+                // completeness, physical modifier keys (mapped to themselves): while the key's
+                // own modifier is down at the OS and nothing is pending, its repeat is forwarded
+                if [code_of("lctl"), code_of("lalt"), code_of("ralt")].contains(k) && os.keys.contains(k) {
+                    let settled = sim.k.layout.b().queue.is_empty()
+                        && sim.k.layout.b().waiting.is_none()
+                        && sim.k.sequence_state.is_inactive()
+                        && sim.k.layout.b().chords_v2.as_ref().map(|c| c.is_idle_chv2()).unwrap_or(true);
+                    if settled && !seq_active_before {
+                        any_complete = true;
+                        match produced.first().map(|o| &o.ev) {
+                            Some(OutEv::Down(rk)) if rk == k => {}
+                            other => {
+                                return Verdict::failed(
+                                    "repeat:not-forwarded:modifier-key",
+                                    format!("{}
+the modifier key {} is held and down at the OS, its repeat gave {:?}", describe(&sim), out_name(*k), other),
+                                );
+                            }
+                        }
+                    }
+                }
                 // completeness
                 if let Some(i) = phys.iter().position(|p| p == k) {
                     if i < 2 {
@@ -545,7 +578,7 @@ impl TypedProp for C14 {
     fn info(&self) -> PropInfo {
         PropInfo {
             level: "exploration",
-            rule: "configs: two physical keys whose cells on 1-2 layers are generated from every key-producing action form (key, output chord, multi, tap-hold variants, lazy/eager tap-dance, one-shot, fork, switch, unmod, unshift, use-defsrc, transparent) nested up to depth 3, every (key, layer) cell with its own disjoint output keys so the output identifies its origin; a layer-while-held key, an unmod/unshift key, optional overrides, optionally a chords-v2 chord over the two keys, v1 chord keys on the held layer, and a sequence leader with a defseq over the two keys in each of the three input modes. Histories: physically consistent presses/releases with OS repeat events injected for keys that are down (also while a tap-hold is pending). Oracle: safety - one repeat input yields at most one output event, and it is a press of a key that is down at the OS; completeness - when the layers have not changed since the press and nothing is pending, a key that holds some of its own output keys down gets exactly one repeat, for one of them, a non-modifier in preference to a chord's modifiers. Non-trivial: an action nested >= 2 deep or a transparent fall-through, and a repeat was forwarded or demanded. Distinct: hash of the case.",
+            rule: "configs: two physical keys whose cells on 1-2 layers are generated from every key-producing action form (key, output chord, multi, tap-hold variants, lazy/eager tap-dance, one-shot, fork, switch, unmod, unshift, use-defsrc, transparent) nested up to depth 3, every (key, layer) cell with its own disjoint output keys so the output identifies its origin; a layer-while-held key, an unmod/unshift key (all modifiers, or lsft / ralt / lalt+ralt only), the physical modifier keys lctl lalt ralt, optional overrides, optionally a chords-v2 chord over the two keys, v1 chord keys on the held layer, and a sequence leader with a defseq over the two keys in each of the three input modes. Histories: physically consistent presses/releases with OS repeat events injected for keys that are down (also while a tap-hold is pending). Oracle: safety - one repeat input yields at most one output event, and it is a press of a key that is down at the OS; completeness - when the layers have not changed since the press and nothing is pending, a key that holds some of its own output keys down gets exactly one repeat, for one of them, a non-modifier in preference to a chord's modifiers; a physical modifier key whose modifier is down at the OS gets its repeat forwarded. Non-trivial: an action nested >= 2 deep or a transparent fall-through, and a repeat was forwarded or demanded. Distinct: hash of the case.",
             assumptions: vec!["'down at the OS' is derived from the simulated output (repeats do not change it)".into()],
             extra: BTreeMap::new(),
         }
@@ -566,10 +599,10 @@ impl TypedProp for C14 {
         Gen::Strat(0)
     }
     fn strategy(&self, _tier: Tier, _key: u32) -> BoxedStrategy<RCase> {
-        let keys: Vec<u16> = ["a", "b", "c", "d", "lctl", "lalt"].iter().map(|k| code_of(k)).collect();
+        let keys: Vec<u16> = ["a", "b", "c", "d", "lctl", "lalt", "ralt"].iter().map(|k| code_of(k)).collect();
         (
             prop::collection::vec(prop::collection::vec(ra_strategy(), 2..=2), 2..=2),
-            0u8..4,
+            0u8..6,
             any::<bool>(),
             // extras: mostly none; each extra alone or combined
             prop_oneof![6 => Just(0u8), 1 => Just(1u8), 1 => Just(2u8), 1 => 1u8..4, 1 => (1u8..4).prop_map(|m| m << 2), 1 => 0u8..16],
